@@ -196,6 +196,13 @@ def generate(run_seed, tier):
         if absent:
             ops.insert(o.randint(1, len(ops) - 1),
                        ['late_add', o.choice(absent)])
+    if 'CIA' in contribs and o.random() < 0.2 and len(ops) >= 2:
+        # the list of collision pairs is changed on the living contribution
+        # (public setter): other pair, one more, one fewer, other order
+        ops.insert(o.randint(1, len(ops) - 1),
+                   ['set_cia_pairs', o.choice([['H2-H2'], ['H2-He'],
+                                               ['H2-H2', 'H2-He'],
+                                               ['H2-He', 'H2-H2']])])
     return {'config': {'model': mcfg, 'obs': S.gen_obs(c, mcfg)}, 'ops': ops}
 
 
@@ -628,6 +635,20 @@ def execute(case, keep_text=False):
                 collision = len(set(names)) < len(names)
                 late[0] = True
                 out.bump('probes', 'source_added_after_build')
+            elif k == 'set_cia_pairs':
+                cia_c = [c_ for c_ in model.contribution_list
+                         if c_.name == 'CIA']
+                if not cia_c or list(op[1]) == list(cfg.get('cia_pairs', [])):
+                    continue
+                from taurex.cache import CIACache
+                cfg = dict(cfg)
+                cfg['cia_pairs'] = list(op[1])
+                _, cias_ = R.opac_tables(cfg['opac'], [], cfg['cia_pairs'])
+                for pr_ in cfg['cia_pairs']:
+                    if pr_ not in CIACache().cia_dict:
+                        CIACache().add_cia(R.MemCIA(pr_, *cias_[pr_]))
+                cia_c[0].ciaPairs = list(op[1])
+                out.bump('probes', 'collision_pairs_changed_after_build')
             elif k == 'set_interp':
                 if ktab:
                     continue
